@@ -95,24 +95,18 @@ pub fn run_jobs(jobs: Vec<Value>, cfg: &PoolCfg) -> Vec<Value> {
     // confirmed on its own, two at a time, with six times the limit (at least 120 s), before it is reported
     let late: Vec<usize> = (0..results.len()).filter(|i| results[*i].get("timeout").is_some()).collect();
     if !late.is_empty() {
-        let again = PoolCfg { workers: 3, batch: 1, timeout: (cfg.timeout * 6).max(Duration::from_secs(120)), envs: cfg.envs.clone() };
-        // the first six are confirmed three at a time on an otherwise idle pool; when every one of them still does not
-        // finish (or dies), the machine was not the reason and the others stand as they are (code under test that hangs on one
-        // input usually hangs on many: confirming hundreds of them one by one would take hours); when one of them does
-        // finish, the limit was too tight for this machine and all the others are confirmed as well
-        let first: Vec<usize> = late.iter().take(6).cloned().collect();
-        let rs = run_jobs_once(first.iter().map(|i| jobs[*i].clone()).collect(), &again);
-        // (a job that ends in an abort or a panic within the long limit is no evidence of a loaded machine either)
-        let all_still_late = rs.iter().all(|r| r.get("timeout").is_some() || r.get("abort").is_some() || r.get("panic").is_some());
-        for (i, r) in first.iter().zip(rs.into_iter()) {
-            results[*i] = r;
-        }
-        if late.len() > 6 && !all_still_late {
-            let rest: Vec<usize> = late.iter().skip(6).cloned().collect();
-            let again = PoolCfg { workers: 4, ..again };
-            let rs = run_jobs_once(rest.iter().map(|i| jobs[*i].clone()).collect(), &again);
-            for (i, r) in rest.into_iter().zip(rs.into_iter()) {
-                results[i] = r;
+        // confirmed four at a time, in order, for at most ten minutes altogether: on the unchanged tree a handful of jobs
+        // at most get here and all of them are confirmed; code under test that hangs on one input usually hangs on
+        // hundreds, and confirming each of them for minutes would take hours -- the ones not reached stand as timeouts
+        let again = PoolCfg { workers: 4, batch: 1, timeout: (cfg.timeout * 6).max(Duration::from_secs(120)), envs: cfg.envs.clone() };
+        let deadline = std::time::Instant::now() + Duration::from_secs(600);
+        for chunk in late.chunks(4) {
+            if std::time::Instant::now() > deadline {
+                break;
+            }
+            let rs = run_jobs_once(chunk.iter().map(|i| jobs[*i].clone()).collect(), &again);
+            for (i, r) in chunk.iter().zip(rs.into_iter()) {
+                results[*i] = r;
             }
         }
     }
